@@ -269,3 +269,57 @@ def extracted_resume(repo):
 def write_extracted_resume(repo, coq_dir):
     from vlib import translate as tr
     return tr.write_if_changed(os.path.join(coq_dir, "Gen", "Extracted_resume.v"), extracted_resume(repo))
+
+
+# ------------------------------------------------------------------------------------------------
+# Environment.run (C03): the prelude and ONE iteration of `while True: self.step()` with the two handlers ->
+# coq/Gen/Extracted_run.v, bridged to run_prelude / run_loop / run_empty of Kernel/Model.v by coq/Kernel/RunBridge.v;
+# obligations in Props/C03_BridgeRun.v.  `until` is None, a number or an Event: which, is three boolean observations;
+# its numeric value is read through `until` (int) / `float(until)`; after `until = Event(self)` the name denotes the sentinel.
+
+RUN_CONS = [("FxRaiseUntilPast", ""),       # raise ValueError(f'until(={at}) must be > the current simulation time.')
+            ("FxNewSentinel", ""),          # until = Event(self)
+            ("FxSentinelOk", ""),           # until._ok = True
+            ("FxSentinelValueNone", ""),    # until._value = None
+            ("FxScheduleUrgent", "(delay : Q)"),   # self.schedule(until, URGENT, delay)
+            ("FxReturnUntilValue", ""),     # return until.value          (the until event was already processed)
+            ("FxAppendStop", ""),           # until.callbacks.append(StopSimulation.callback)
+            ("FxStep", ""),                 # self.step()
+            ("FxReturnStopValue", ""),      # return exc.args[0]           (StopSimulation)
+            ("FxAssertUntriggered", ""),    # assert not until.triggered
+            ("FxRaiseNotTriggered", ""),    # raise RuntimeError('No scheduled events left but "until" event was not triggered: ...')
+            ("FxReturnNone", ""),           # return None
+            ("FxLoopAgain", "")]
+RUN_FX = [("raise ValueError(f'until(={at}) must be > the current simulation time.')", "FxRaiseUntilPast", []),
+          ("until = Event(self)", "FxNewSentinel", []),
+          ("until._ok = True", "FxSentinelOk", []),
+          ("until._value = None", "FxSentinelValueNone", []),
+          ("self.schedule(until, URGENT, _1)", "FxScheduleUrgent", ["Q"]),
+          ("return until.value", "FxReturnUntilValue", []),
+          ("until.callbacks.append(StopSimulation.callback)", "FxAppendStop", []),
+          ("self.step()", "FxStep", []),
+          ("return exc.args[0]", "FxReturnStopValue", []),
+          ("assert not until.triggered", "FxAssertUntriggered", []),
+          ("raise RuntimeError(f'No scheduled events left but \"until\" event was not triggered: {until}')", "FxRaiseNotTriggered", []),
+          ("return None", "FxReturnNone", [])]
+RUN_READS = [("until is not None", "until_given", "bool"),
+             ("isinstance(until, Event)", "until_is_event", "bool"),
+             ("isinstance(until, int)", "until_is_int", "bool"),
+             ("until", "until_int", "Q"),                   # the number, when it is an int
+             ("float(until)", "until_float", "Q"),          # the number otherwise
+             ("self.now", "now", "Q"),
+             ("until.callbacks is None", "until_processed", "bool")]
+
+
+def extracted_run(repo):
+    from vlib import translate as tr
+    spec = tr.FnSpec(os.path.join(repo, "onl", "sim", "core.py"), "Environment", "run", "gen_Environment_run",
+                     reads=RUN_READS, effects=RUN_FX, ignore_stmts=["at: SimTime"], loop_again="FxLoopAgain",
+                     raising=[("FxStep", [("StopSimulation", "stopped"), ("EmptySchedule", "empty")])])
+    return tr.gen_module("onl/sim/core.py: Environment.run -- the part before the loop and ONE iteration of `while True: self.step()` "
+                         "with the StopSimulation / EmptySchedule handlers", None, "", [], "run_fx", RUN_CONS, [spec])
+
+
+def write_extracted_run(repo, coq_dir):
+    from vlib import translate as tr
+    return tr.write_if_changed(os.path.join(coq_dir, "Gen", "Extracted_run.v"), extracted_run(repo))
